@@ -33,6 +33,9 @@ def make_plan(tape, prop):
     plan["big"] = tape.chance(1, 6)
     plan["fault_seed"] = tape.draw(1 << 30)
     plan["single"] = None
+    if prop == "C02":
+        plan["control_only"] = True
+        plan["values"] += [[tape.draw(1 << 16) for _ in range(48)] for _ in range(4)]
     return plan
 
 
@@ -197,6 +200,39 @@ class LinkRun(object):
                 self.count("fixpoints")
         return None
 
+    def control_arm(self, vi, e, E, tree, kind, detail, m):
+        """C02 on the intact reference encoding (the fault-free arm of the same pipeline)"""
+        T = self.T
+        if not wire.greedy_tail_aligned(T, tree):
+            self.count("control_skipped_unaligned_greedy")
+            return None
+        longest = _longest_array(T, tree)
+
+        def viol(tag, ck, msg):
+            v = Violation("C02", tag, ck, vi, "%s; %s-endian canonical encoding %s" %
+                          (msg, "little" if e == "<" else "big", _short(E)))
+            v.fault = {"value": vi, "e": e, "fault": {"k": "none"}}
+            return v
+        if kind != "ret":
+            if longest > 65536 and kind == "err":
+                self.probes["array_longer_than_65536"] = self.probes.get("array_longer_than_65536", 0) + 1
+                return viol("intact-rejected", "C02/intact-rejected/array-longer-than-65536",
+                            "a message holding an array of %d elements encodes but its encoding is refused by decode (%s)" %
+                            (longest, detail))
+            return viol("intact-rejected", "C02/intact-rejected/%s" % (type(detail).__name__ if kind != "timeout" else "timeout"),
+                        "decode of the canonical encoding did not return: %s %s" % (kind, detail))
+        if detail != len(E):
+            return viol("consumed", "C02/consumed-length", "decode consumed %r of %d bytes" % (detail, len(E)))
+        got = pyapi.observe(T, m, [])
+        want = mm.wire_round(T, tree)
+        if canon(T, got) != canon(T, want):
+            return viol("value", "C02/value-mismatch", "decoded %r, expected %r" % (got, want))
+        if m.encode(e) != E:
+            return viol("reencode", "C02/reencode-mismatch", "re-encoding differs from the canonical bytes")
+        self.count("control_roundtrips")
+        self.states.add("control|%s|%s" % (e, mm.abstract_digest(T, tree)))
+        return None
+
     def run(self):
         plan = self.plan
         self.setup()
@@ -217,6 +253,12 @@ class LinkRun(object):
                 # control arm: the intact encoding (counted, and its cost feeds the calibration probe)
                 (kind, detail, m), _, steps = self.decode_one(E, e, False)
                 self.count("intact:" + kind)
+                if "C02" in self.armed:
+                    v = self.control_arm(vi, e, E, tree, kind, detail, m)
+                    if v is not None:
+                        return v
+                    if plan.get("control_only"):
+                        continue
                 if single:
                     faults = [single["fault"]]
                 else:
@@ -232,6 +274,28 @@ class LinkRun(object):
                         self.trace.append("fault %r -> %s" % (f, v.class_key))
                         return v
         return None
+
+
+def _longest_array(t, tree):
+    if t.cat == "union":
+        name, at, _ = t.by_name[tree["@arm"]]
+        return _longest_array(at, tree["v"]) if at.cat in ("struct", "union") else 0
+    if t.cat != "struct":
+        return 0
+    n = 0
+    for m in t.members:
+        if m.sizes:
+            continue
+        v = tree[m.name]
+        if m.arr and not m.is_bytes:
+            n = max(n, len(v))
+            if m.type.cat in ("struct", "union"):
+                n = max([n] + [_longest_array(m.type, x) for x in v])
+        elif m.is_bytes:
+            n = max(n, len(v))
+        elif v is not None and m.type.cat in ("struct", "union"):
+            n = max(n, _longest_array(m.type, v))
+    return n
 
 
 def _short(b):
@@ -250,11 +314,11 @@ def execute(plan, armed):
     vd = None
     if v is not None and v.prop in armed:
         vd = v.as_dict()
-        vd["fault"] = v.fault
-    nontriv = run.stats.get("decodes", 0) > 0
+        vd["fault"] = getattr(v, "fault", None)
+    nontriv = run.stats.get("decodes", 0) > 0 or run.stats.get("control_roundtrips", 0) > 0
     return {
         "violation": vd, "soft": [], "stats": dict(run.stats, max_step_ratio_x1000=0, max_mem_ratio_x1000=0),
-        "probes": {}, "faults": run.faults,
+        "probes": run.probes, "faults": run.faults,
         "states": set("%s:%s" % (shape, s) for s in run.states),
         "digest": run.log.hexdigest(), "trace": run.trace, "steps": run.steps, "nontrivial": nontriv,
         "sample": {"schema": getattr(run, "text", ""), "message_type": plan["msg_name"], "values": len(plan["values"]),
@@ -266,7 +330,7 @@ def execute(plan, armed):
 def simplify_plan(plan, same):
     """reduce to the single failing (value, byte order, fault)"""
     import copy
-    res = execute(plan, {"C06"})
+    res = execute(plan, {plan.get("prop", "C06")})
     v = res.get("violation")
     if v and v.get("fault"):
         cand = copy.deepcopy(plan)
